@@ -10,6 +10,10 @@ use crate::wire;
 use crate::world::{CloseKind, Cond, Opts, Outcome, Scenario, Step};
 
 pub const STATES: &[&str] = &["pre-startup", "awaiting-password", "idle", "in-transaction", "mid-batch", "copy-in", "copy-in-data", "session-held"];
+/// extra state, only with prepared_statements_cache_size = 1: COPY in progress while the statement `h1` is known
+/// to the client but no longer on the server (evicted by `h2`), so that binding it makes the pooler prepare it
+/// out of band
+pub const EVICTED_STATE: &str = "copy-in-evicted";
 
 pub fn templates() -> Vec<(&'static str, Vec<u8>, bool)> {
     // (name, bytes, typed?)
@@ -21,6 +25,14 @@ pub fn templates() -> Vec<(&'static str, Vec<u8>, bool)> {
         ("Q", wire::query("SELECT 7 /*c0.t7.s0*/"), true),
         ("Q-nonutf8", wire::msg(b'Q', b"SELECT ERR!RAW \xff\xfe\xc3\x28 /*c0.t7.s3*/\0"), true),
         ("P", wire::parse("h1", "SELECT $1 /*c0.t7.s1*/", &[23]), true),
+        // statement and portal names that are not UTF-8, used consistently: well-formed for PostgreSQL
+        ("PB-nonutf8", {
+            let mut b = wire::msg(b'P', b"\xff\xfe\0SELECT 7 /*c0.t7.s4*/\0\0\0");
+            b.extend(wire::sync());
+            b.extend(wire::msg(b'B', b"\xfd\xfc\0\xff\xfe\0\0\0\0\0\0\0"));
+            b.extend(wire::execute("", 0));
+            b
+        }, true),
         ("B", wire::bind("", "h1", &[1], &[Some(vec![0, 0, 0, 7])], &[0]), true),
         ("D", wire::describe(b'S', "h1"), true),
         ("E", wire::execute("", 0), true),
@@ -99,7 +111,7 @@ pub fn mutations(name: &str, m: &[u8], typed: bool, thorough: bool) -> Vec<(Stri
         }
     }
     // a buffered extended-protocol message only has an effect once a Sync flushes the batch
-    if ["P", "B", "D", "E", "C"].contains(&name) {
+    if ["P", "B", "D", "E", "C", "PB-nonutf8"].contains(&name) {
         let flushed: Vec<(String, Vec<u8>)> = out
             .iter()
             .map(|(mn, b)| {
@@ -154,6 +166,18 @@ pub fn scenario_follow(replica_only: bool, cache: usize, state: &str, tname: &st
                 .send(wire::query(&format!("COPY t FROM STDIN /*{}*/", tag(0, 0, 0))), "Q COPY")
                 .wait(Cond::CodeOrClosed(b'G', 1))
                 .send(wire::copy_data(format!("row {}\n", tag(0, 0, 1)).as_bytes()), "d");
+        }
+        "copy-in-evicted" => {
+            let mut p1 = wire::parse("h1", "SELECT $1 /*c0.t7.s1*/", &[23]);
+            p1.extend(wire::sync());
+            let mut p2 = wire::parse("h2", "SELECT 'other' /*c0.t7.s5*/", &[]);
+            p2.extend(wire::sync());
+            a = a
+                .connect("alice", "db", Some("alicepw"))
+                .send_z(p1, "P(h1) S")
+                .send_z(p2, "P(h2) S")
+                .send(wire::query(&format!("COPY t FROM STDIN /*{}*/", tag(0, 0, 0))), "Q COPY")
+                .wait(Cond::CodeOrClosed(b'G', 1));
         }
         "session-held" => a = a.connect("alice", "db", Some("alicepw")).q(&format!("SELECT 1 /*{}*/", tag(0, 0, 0))),
         _ => panic!("state"),
@@ -368,10 +392,21 @@ pub fn build(tier: &str) -> SimCheck {
                         scenarios.push(scenario(replica_only, 0, state, tname, &mname, &mb, true));
                     }
                     // statement caching on: the pooler itself decodes more of the traffic (server errors, P/B/D/C bodies)
-                    if ["Q-nonutf8", "P", "B", "D", "C"].contains(&tname) && (thorough || mname == "wellformed" || mname.starts_with("len") || mname == "no-nuls" || mname.starts_with("n") || mname.starts_with("plen")) {
+                    if ["Q-nonutf8", "P", "B", "D", "C", "PB-nonutf8"].contains(&tname) && (thorough || mname == "wellformed" || mname.starts_with("len") || mname == "no-nuls" || mname.starts_with("n") || mname.starts_with("plen")) {
                         scenarios.push(scenario(replica_only, 8, state, tname, &mname, &mb, false));
                     }
                 }
+            }
+        }
+    }
+    for (tname, bytes, typed) in templates() {
+        if !["B", "D", "P"].contains(&tname) {
+            continue;
+        }
+        for (mname, mb) in mutations(tname, &bytes, typed, false) {
+            if mname == "wellformed+S" || mname == "wellformed" || (thorough && mname.ends_with("+S")) {
+                scenarios.push(scenario_follow(false, 1, EVICTED_STATE, tname, &mname, &mb, false, "none"));
+                scenarios.push(scenario_follow(false, 1, EVICTED_STATE, tname, &mname, &mb, false, "queries"));
             }
         }
     }
@@ -380,7 +415,7 @@ pub fn build(tier: &str) -> SimCheck {
         oracle: Box::new(oracle),
         bound: if thorough { 1 } else { 0 },
         limits: Limits { max_wall_s: if thorough { 2400.0 } else { 55.0 }, ..Default::default() },
-        rule: "scenario = pool (single primary / single replica, pool_size 1) x attacker protocol state (pre-startup, awaiting password, idle, in transaction, mid extended batch, COPY IN, COPY IN with buffered CopyData, session-mode held) x 16 message templates x mutations (truncation at byte offsets, 8 length-field values, NULs stripped, counts -1/32767, parameter length -1/huge, unknown type bytes, other startup codes, well-formed but out of order; every mutation of Parse/Bind/Describe/Execute/Close also followed by a Sync that flushes the batch) x attacker stays connected or leaves, or first carries on with ordinary traffic (a COPY with a 9000-byte CopyData ended by a query, an extended batch, simple queries); a canary shares the pool and runs a transaction during and after; then a pooler-state probe".into(),
+        rule: "scenario = pool (single primary / single replica, pool_size 1) x attacker protocol state (pre-startup, awaiting password, idle, in transaction, mid extended batch, COPY IN, COPY IN with buffered CopyData, COPY IN with a statement known to the client but evicted from the server, session-mode held) x 17 message templates (incl. a Parse/Bind pair with non-UTF-8 statement and portal names) x mutations (truncation at byte offsets, 8 length-field values, NULs stripped, counts -1/32767, parameter length -1/huge, unknown type bytes, other startup codes, well-formed but out of order; every mutation of Parse/Bind/Describe/Execute/Close also followed by a Sync that flushes the batch) x attacker stays connected or leaves, or first carries on with ordinary traffic (a COPY with a 9000-byte CopyData ended by a query, an extended batch, simple queries); a canary shares the pool and runs a transaction during and after; then a pooler-state probe".into(),
         assumptions: vec!["length fields capped at 1 MiB (memory exhaustion not decided)".into(), "a panic confined to the attacker's own task is a disconnect, allowed by the property".into()],
     }
 }
